@@ -14,19 +14,20 @@ import (
 )
 
 type Oblig struct {
-	Reach  string
-	Name   string
-	Func   string
-	Kind   string
-	Label  string
-	Cut    int
-	Goal   string
-	Pos    string
-	Inputs []string
-	Res    *SolveResult
-	Clause *Clause
-	Callee string
-	ex     *Exec
+	TimeoutS int // override (0 = default)
+	Reach    string
+	Name     string
+	Func     string
+	Kind     string
+	Label    string
+	Cut      int
+	Goal     string
+	Pos      string
+	Inputs   []string
+	Res      *SolveResult
+	Clause   *Clause
+	Callee   string
+	ex       *Exec
 }
 
 type loopInfo struct {
@@ -637,21 +638,20 @@ func (ex *Exec) loopVars(li *loopInfo, phiVal func(*ssa.Phi) Val, st *State) map
 		if found {
 			continue
 		}
-		// a value defined outside the loop: the unique DebugRef for that name dominating the header
+		// a variable that is not loop-carried: its value at the header is its reaching definition —
+		// walk the dominator chain upwards from the header; in each block the last mention wins
+		// (a DebugRef naming the variable, or the phi that merges it)
 		var cand ssa.Value
-		for _, b := range ex.fn.Blocks {
-			if li.body[b] && b != li.header {
-				continue
-			}
-			for _, in := range b.Instrs {
-				if d, ok := in.(*ssa.DebugRef); ok && !d.IsAddr {
-					if id, ok := d.Expr.(interface{ String() string }); ok && id.String() == p.Name {
-						if _, isPhi := d.X.(*ssa.Phi); isPhi && d.X.(*ssa.Phi).Block() == li.header {
-							continue
-						}
-						if vb := valueBlock(d.X); vb == nil || (vb.Dominates(li.header) && !li.body[vb]) {
-							cand = d.X
-						}
+		for b := li.header.Idom(); b != nil && cand == nil; b = b.Idom() {
+			for k := len(b.Instrs) - 1; k >= 0 && cand == nil; k-- {
+				switch in := b.Instrs[k].(type) {
+				case *ssa.DebugRef:
+					if id, ok := in.Expr.(interface{ String() string }); ok && !in.IsAddr && id.String() == p.Name {
+						cand = in.X
+					}
+				case *ssa.Phi:
+					if in.Comment == p.Name {
+						cand = in
 					}
 				}
 			}
@@ -661,7 +661,13 @@ func (ex *Exec) loopVars(li *loopInfo, phiVal func(*ssa.Phi) Val, st *State) map
 			continue
 		}
 		if _, ok := m[p.Name]; !ok {
-			ex.unsup("loop %d: cannot resolve variable %s", li.n, p.Name)
+			var names []string
+			for _, in := range li.header.Instrs {
+				if phi, ok := in.(*ssa.Phi); ok {
+					names = append(names, phi.Comment)
+				}
+			}
+			ex.unsup("loop %d: cannot resolve variable %s (loop-carried variables here: %v)", li.n, p.Name, names)
 		}
 	}
 	// check declared types
@@ -894,6 +900,14 @@ func (ex *Exec) execInstr(in ssa.Instruction) {
 		return
 	case *ssa.Alloc:
 		t := deref(in.Type())
+		if _, ok := isStruct(t); ok && !in.Heap {
+			// a struct local whose address does not escape: a local variable of datatype sort
+			name := ex.locals[in]
+			e.regHeap(name, e.sortOf(t))
+			ex.st.set(name, e.zeroValue(t))
+			ex.vals[in] = Val{Loc: &Loc{Kind: LLocal, Heap: name, Typ: t}, S: "Ref"}
+			return
+		}
 		if _, ok := isStruct(t); ok {
 			r := ex.newRef("new_" + sanitize(in.Comment))
 			e.storeStruct(ex.st, t, r, e.zeroValue(t))
@@ -1197,6 +1211,9 @@ func (ex *Exec) postChecks(in ssa.Instruction, r Val) {
 	// loaded references are allocated objects (well-formed heap)
 	if u, ok := in.(*ssa.UnOp); ok && u.Op == token.MUL && r.S == "Ref" && r.T != "" {
 		ex.e.assume(fmt.Sprintf("(or (= %s nil) (select %s %s))", r.T, ex.st.get("alloc"), r.T))
+	}
+	if u, ok := in.(*ssa.UnOp); ok && u.Op == token.MUL && r.S == "Slice" && r.T != "" {
+		ex.e.assume(fmt.Sprintf("(or (= (s.arr %s) nilarr) (select %s (s.arr %s)))", r.T, ex.st.get("allocA"), r.T))
 	}
 }
 
